@@ -2,6 +2,7 @@ package main
 
 import (
 	"bytes"
+	"context"
 	"encoding/json"
 	"fmt"
 	"io"
@@ -297,7 +298,8 @@ type Store struct {
 	ReadHook    func(c cid.Cid) error // optional
 	FailOpenAt  int                   // k-th (1-based) write-open fails; 0 = never
 	FailCommit  int                   // k-th (1-based) commit fails; 0 = never
-	FailFlavor  int                   // 0: FaultErr; 1: *fs.PathError{ENOENT}; 2: fmt.Errorf("%w", fs.ErrNotExist) — what a file-system block store returns
+	FailFlavor  int                   // 0: FaultErr; 1: *fs.PathError{ENOENT}; 2: fmt.Errorf("%w", fs.ErrNotExist) — what a file-system block store returns; 3/4: wrapping io.EOF / io.ErrUnexpectedEOF; 5: context.Canceled
+	FailWriteAt int                   // the Write into the k-th (1-based) opened block stream fails; 0 = never
 	nOpen       int
 	nCommit     int
 	Events      []string // "open", "commit:<cid>", "failopen", "failcommit:<cid>"
@@ -310,6 +312,12 @@ func (s *Store) flavored(kind uint64) error {
 		return &fs.PathError{Op: "open", Path: "blocks/XX/blk.data", Err: wrappedFault{FaultErr{kind}, fs.ErrNotExist}}
 	case 2:
 		return fmt.Errorf("blockstore: %w", wrappedFault{FaultErr{kind}, fs.ErrNotExist})
+	case 3: // a remote store whose connection was cut: the transport's error wraps io.EOF
+		return fmt.Errorf("blockstore: put: %w", wrappedFault{FaultErr{kind}, io.EOF})
+	case 4:
+		return fmt.Errorf("blockstore: put: %w", wrappedFault{FaultErr{kind}, io.ErrUnexpectedEOF})
+	case 5:
+		return wrappedFault{FaultErr{kind}, context.Canceled}
 	}
 	return FaultErr{kind}
 }
@@ -361,7 +369,11 @@ func (s *Store) LinkSystem() *ipld.LinkSystem {
 		}
 		s.Events = append(s.Events, "open")
 		var buf bytes.Buffer
-		return &buf, func(l datamodel.Link) error {
+		var w io.Writer = &buf
+		if s.FailWriteAt != 0 && s.nOpen == s.FailWriteAt {
+			w = failingWriter{s}
+		}
+		return w, func(l datamodel.Link) error {
 			s.nCommit++
 			c := l.(cidlink.Link).Cid
 			if s.FailCommit != 0 && s.nCommit == s.FailCommit {
@@ -491,4 +503,12 @@ func must(err error) {
 	if err != nil {
 		panic(err)
 	}
+}
+
+// failingWriter is a block stream whose Write fails (a full disk, a closed connection)
+type failingWriter struct{ s *Store }
+
+func (f failingWriter) Write(p []byte) (int, error) {
+	f.s.Events = append(f.s.Events, "failwrite")
+	return 0, f.s.flavored(502)
 }
